@@ -158,3 +158,8 @@ package store
 //@ func Momentum.GetAllDefinedSporks(self) -> (sporks, err)
 //@   ensures err == nil ==> sporks.arr == self.sporksArr && sporks.off == self.sporksOff && len(sporks) == self.sporkCount && forall k int :: 0 <= k && k < len(sporks) ==> sporks[k] != nil
 //@   modifies nothing
+
+//@ func Momentum.GetMomentumsByHash(self, blockHash, higher, count) -> (list, err)
+//@   requires[bounded-request] count <= 1024
+//@   ensures err == nil ==> len(list) <= count && forall k int :: 0 <= k && k < len(list) ==> list[k] != nil
+//@   modifies nothing
